@@ -765,6 +765,10 @@ class AsyncFIXConnection:
         self._message_last_time = time.time()
 
         if new_seq_no <= 0 or new_seq_no > int(msg[FTag.MsgSeqNum]):
+            if new_seq_no > 0:
+                # Journal stores message's own MsgSeqNum as inbound seq num: session
+                #   expects the next one until journal is set at NewSeqNo (below)
+                self._session.next_num_in = int(msg[FTag.MsgSeqNum]) + 1
             self._journaler.persist_msg(
                 raw_msg, self._session, MessageDirection.INBOUND
             )
@@ -772,8 +776,9 @@ class AsyncFIXConnection:
         #   cleanup it from journal anyway
 
         if new_seq_no > 0:
-            # Set journal at new NewSeqNo
+            # Set journal and session at new NewSeqNo
             self._journaler.set_seq_num(self._session, next_num_in=new_seq_no)
+            self._session.next_num_in = new_seq_no
 
     async def _process_testrequest(self, testreq_msg: FIXMessage):
         """Handles TestRequest(35=1).
